@@ -27,7 +27,7 @@ theorem InvP.closed : Closed InvP where
     · exact h.of_eq rfl (fun _ => rfl)
     · exact h
   ctxEmpty := fun s i h => h.of_eq rfl (cntP_setTh s i _ (fun _ => rfl))
-  dropCtx := fun s i h _ _ => by
+  dropCtx := fun s i h _ _ _ => by
     unfold PA.dropCtx
     refine h.of_eq rfl (fun p => ?_)
     rw [cntP_setTh]
@@ -81,7 +81,7 @@ theorem Closed.and {P Q : BSt → Prop} (hp : Closed P) (hq : Closed Q) : Closed
   frame := fun s s' h f => ⟨hp.frame s s' h.1 f, hq.frame s s' h.2 f⟩
   refresh := fun s h => ⟨hp.refresh s h.1, hq.refresh s h.2⟩
   ctxEmpty := fun s i h => ⟨hp.ctxEmpty s i h.1, hq.ctxEmpty s i h.2⟩
-  dropCtx := fun s i h hv he => ⟨hp.dropCtx s i h.1 hv he, hq.dropCtx s i h.2 hv he⟩
+  dropCtx := fun s i h hv he hz => ⟨hp.dropCtx s i h.1 hv he hz, hq.dropCtx s i h.2 hv he hz⟩
   prepRead := fun s i h => ⟨hp.prepRead s i h.1, hq.prepRead s i h.2⟩
   commitRead := fun s i h => ⟨hp.commitRead s i h.1, hq.commitRead s i h.2⟩
   readOne := fun s i st rest h hq' hr => ⟨hp.readOne s i st rest h.1 hq' hr, hq.readOne s i st rest h.2 hq' hr⟩
